@@ -72,7 +72,7 @@ Theorem C02_text_keeps_its_place : forall rd fuel toks st st' out,
   filter (solid py_isspace) out = filter (solid py_isspace) (texts (rtoks py_tables (macros st) toks)).
 Proof.
   exact (fun rd fuel toks st st' out =>
-           exec_args_positions py_tables rd (eq_refl true) (fun c => eq_refl) (eq_refl true)
+           exec_args_positions py_tables rd (eq_refl true) (fun c => eq_refl) (conj eq_refl eq_refl) (eq_refl true)
                                fuel toks st st' out (eq_refl true)).
 Qed.
 Print Assumptions C02_text_keeps_its_place.
@@ -96,13 +96,15 @@ Theorem C02_document_of_the_class : forall rd fuel st latex r,
                    (exists m mac body b, In m toks /\ faithful latex m /\ tk m = KMacro /\
                                 assoc (txt m) (macros st) = Some mac /\
                                 m_repl mac = RToks body /\ In b body /\
-                                t = set_pos_fix b (pos m)))
+                                t = set_pos_fix b (pos m)) \/
+                   (exists s, In s toks /\ faithful latex s /\ tk s = KVerb false /\
+                                t = mk KText (pos s) (txt s) (pfix s)))
          (filter (solid py_isspace) (snd r)) /\
   unknowns (fst r) = fold_left ExpandSites.add_unknown (unames (macros st) toks) (unknowns st) /\
   macros (fst r) = macros st.
 Proof.
   exact (fun rd => parser_work_class py_tables rd (eq_refl true) (fun c => eq_refl)
-                                     (eq_refl true) (eq_refl true)).
+                                     (conj eq_refl eq_refl) (eq_refl true) (eq_refl true)).
 Qed.
 Print Assumptions C02_document_of_the_class.
 
@@ -142,3 +144,15 @@ Example C02_nonvacuous :
     [(0, s2l "a"); (1, s2l " "); (2, s2l "--"); (4, s2l " "); (5, s2l "b")]
   /\ desc_lenb (sp_specials (t_scan py_tables)) = true.
 Proof. split; reflexivity. Qed.
+
+(* \verb material lies in the class: every character of it, including the
+   dollar and the backslash, is copied at its own offset *)
+Example C02_verb_example :
+  let st0 := Exec.init_state py_tables (s2l "en") false false true in
+  let latex := s2l "a \verb|x $y\z| b\\c" in
+  doc_in_class py_tables st0 latex = true /\
+  match Parser.parser_work py_tables (exec py_tables (fun _ => None) 200) st0 latex with
+  | Ok r => Some (get_txt_pos (snd r)) | _ => None end
+  = Some ([97; 32; 120; 32; 36; 121; 92; 122; 32; 98; 32; 99]%N,
+          [0; 1; 8; 9; 10; 11; 12; 13; 15; 16; 17; 19]).
+Proof. vm_compute. split; reflexivity. Qed.
